@@ -402,7 +402,7 @@ def asan_run(binary, kind, cfg, keys, driver, flags, extra=(), timeout=1800):
                 stats = json.loads(line)
             except Exception:
                 pass
-    return dict(rc=rc, asan='AddressSanitizer' in err, tail=err[-2500:], stats=stats, wall_s=round(time.time() - t0, 1))
+    return dict(rc=rc, asan='AddressSanitizer' in err, tail=err[-2500:], stats=stats, wall_s=round(time.time() - t0, 1), cmd=cmd)
 
 
 # --------------------------------------------------------------------------- harness exec
